@@ -97,6 +97,14 @@ def jobs(tier, seed):
         if kind == 'DRR':
             cfg['smax'] = 3200
         js.append({'harness': 'wc', 'cfg': cfg, 'weight': 30})
+    # longer workloads with few timing variables: two bursts of four packets (effects that need several packets to show)
+    for kind in KINDS:
+        m = 6 if (tier == 'quick' and kind in ('DRR', 'WFQ')) else 8
+        cfg = {'kind': kind, 'rate': 8, 'table': TABLES[kind], 'flows': [0, 1, 0, 1, 1, 0, 0, 1][:m], 'sorts': 'int',
+               'burst': [0, 1, 1, 1, 0, 1, 1, 1][:m], 'smax': 2 if kind != 'DRR' else 1600}
+        if kind == 'WFQ':
+            cfg['float_inexact'] = True
+        js.append({'harness': 'wc', 'cfg': cfg, 'weight': 60, 'opts': {'max_paths': 20000}})
     # other line rates (dyadic 64, and 24 where 8*size/rate is not dyadic)
     for kind in KINDS:
         for rate in (64, 24):
